@@ -209,6 +209,10 @@ where
         write_set: &mut HashSet<LocationAndType>,
     ) {
         write_set.insert(location.clone());
+        vpoint!(SCHED, "P_Pub");
+        vemit!(SCHED, "P_Pub", "tx" => self.version.txid, "inc" => self.version.incarnation,
+            "loc" => crate::verif::fmt::loc(&location), "val" => crate::verif::fmt::value(&value),
+            "est" => estimate);
         self.mv_memory
             .entry(location)
             .or_default()
@@ -223,6 +227,9 @@ where
         let mut result = None;
         let mut read_version = ReadVersion::Storage;
         let location = LocationAndType::Code(address);
+        #[cfg(grevm_verif)]
+        let mut verif_est = false;
+        vpoint!(SCHED, "R_Read");
         // 1. read from multi-version memory
         if let Some(written_transactions) = self.mv_memory.get(&location) &&
             let Some((&txid, entry)) =
@@ -233,6 +240,10 @@ where
             if entry.estimate {
                 self.blocking_txs.insert(txid);
             }
+            #[cfg(grevm_verif)]
+            {
+                verif_est = entry.estimate;
+            }
             read_version = ReadVersion::MvMemory(TxVersion::new(txid, entry.incarnation));
         }
         // 2. read from database
@@ -241,6 +252,11 @@ where
             result = Some(byte_code);
         }
 
+        vemit!(SCHED, "R_Read", "tx" => self.version.txid, "inc" => self.version.incarnation,
+            "loc" => crate::verif::fmt::loc(&location),
+            "ver" => crate::verif::fmt::version(&read_version),
+            "val" => result.as_ref().map(|c| format!("code:{:x}", c.hash_slow())),
+            "est" => verif_est);
         self.read_set.insert(location, read_version);
         Ok(result.expect("No bytecode"))
     }
@@ -254,18 +270,31 @@ where
 
     fn basic(&mut self, address: Address) -> Result<Option<AccountInfo>, Self::Error> {
         let mut result = None;
+        #[cfg(grevm_verif)]
+        let mut verif_est = false;
+        vpoint!(SCHED, "R_Read");
         if self.beneficiary.matches(address) {
             let location = LocationAndType::Basic(address);
             match self.beneficiary.resolve_before(self.version.txid) {
                 Ok(read) => {
                     let (account, version) = read.into_parts();
                     result = account;
+                    vemit!(SCHED, "R_Read", "tx" => self.version.txid,
+                        "inc" => self.version.incarnation,
+                        "loc" => crate::verif::fmt::loc(&location),
+                        "ver" => format!("ben:{}", version.verif_origins()),
+                        "val" => Some(crate::verif::fmt::info(result.as_ref())), "est" => false);
                     self.read_set.insert(location, ReadVersion::Beneficiary(version));
                     if let Some(info) = &result {
                         self.account_snapshots.insert(address, AccountBasic::from(info));
                     }
                 }
                 Err(blocker) => {
+                    vemit!(SCHED, "R_Read", "tx" => self.version.txid,
+                        "inc" => self.version.incarnation,
+                        "loc" => crate::verif::fmt::loc(&location),
+                        "ver" => format!("benblock:{blocker}"),
+                        "val" => Option::<String>::None, "est" => true);
                     self.blocking_txs.insert(blocker);
                     self.blocked_by_beneficiary = true;
                     // This incarnation will be discarded. Absence lets the EVM finish without
@@ -287,6 +316,10 @@ where
                 if entry.estimate {
                     self.blocking_txs.insert(txid);
                 }
+                #[cfg(grevm_verif)]
+                {
+                    verif_est = entry.estimate;
+                }
                 read_version = ReadVersion::MvMemory(TxVersion::new(txid, entry.incarnation));
             }
             // 2. read from database
@@ -297,6 +330,11 @@ where
             if let Some(read_account) = read_account {
                 self.account_snapshots.insert(address, read_account);
             }
+            vemit!(SCHED, "R_Read", "tx" => self.version.txid, "inc" => self.version.incarnation,
+                "loc" => crate::verif::fmt::loc(&location),
+                "ver" => crate::verif::fmt::version(&read_version),
+                "val" => Some(crate::verif::fmt::info(result.as_ref())),
+                "est" => verif_est);
             self.read_set.insert(location, read_version);
         }
 
@@ -314,6 +352,9 @@ where
     }
 
     fn storage(&mut self, address: Address, index: U256) -> Result<U256, Self::Error> {
+        vpoint!(SCHED, "R_Read");
+        #[cfg(grevm_verif)]
+        let mut verif_est = (false, false);
         let reset_location = LocationAndType::StorageReset(address);
         let mut reset_version = ReadVersion::Storage;
         let mut reset_txid = None;
@@ -324,6 +365,10 @@ where
             reset_txid = Some(txid);
             if entry.estimate {
                 self.blocking_txs.insert(txid);
+            }
+            #[cfg(grevm_verif)]
+            {
+                verif_est.0 = entry.estimate;
             }
             reset_version = ReadVersion::MvMemory(TxVersion::new(txid, entry.incarnation));
         }
@@ -339,20 +384,43 @@ where
             if entry.estimate {
                 self.blocking_txs.insert(txid);
             }
+            #[cfg(grevm_verif)]
+            {
+                verif_est.1 = entry.estimate;
+            }
             slot_version = ReadVersion::MvMemory(TxVersion::new(txid, entry.incarnation));
             slot_write = Some((txid, value));
         }
+        #[cfg(grevm_verif)]
+        let versions = (
+            crate::verif::fmt::version(&self.read_set[&LocationAndType::StorageReset(address)]),
+            crate::verif::fmt::version(&slot_version),
+            crate::verif::fmt::loc(&location),
+        );
         self.read_set.insert(location, slot_version);
 
         if let Some((slot_txid, value)) = slot_write &&
             reset_txid.is_none_or(|reset_txid| slot_txid >= reset_txid)
         {
+            vemit!(SCHED, "R_Read", "tx" => self.version.txid, "inc" => self.version.incarnation,
+                "loc" => versions.2.clone(), "ver" => versions.1.clone(), "reset" => versions.0.clone(),
+                "val" => Some(format!("{value:x}")), "src" => "slot",
+                "est" => verif_est.1, "reset_est" => verif_est.0);
             return Ok(value);
         }
         if reset_txid.is_some() {
+            vemit!(SCHED, "R_Read", "tx" => self.version.txid, "inc" => self.version.incarnation,
+                "loc" => versions.2.clone(), "ver" => versions.1.clone(), "reset" => versions.0.clone(),
+                "val" => Some("0".to_owned()), "src" => "reset",
+                "est" => verif_est.1, "reset_est" => verif_est.0);
             return Ok(U256::ZERO);
         }
-        self.backing_db.storage_ref(address, index)
+        let value = self.backing_db.storage_ref(address, index);
+        vemit!(SCHED, "R_Read", "tx" => self.version.txid, "inc" => self.version.incarnation,
+            "loc" => versions.2.clone(), "ver" => versions.1.clone(), "reset" => versions.0.clone(),
+            "val" => value.as_ref().ok().map(|v| format!("{v:x}")), "src" => "backing",
+            "est" => verif_est.1, "reset_est" => verif_est.0);
+        value
     }
 
     fn block_hash(&mut self, number: u64) -> Result<B256, Self::Error> {
